@@ -509,3 +509,38 @@ def cyclic_modules(L, tab):
             m.entry = 0
             out.append(("cyclic-%s-%s" % (bn, un), m.build(L)))
     return out
+
+
+def hashmap_idioms(L, tab):
+    """hashmaps whose keys and values are fresh heap objects, through every hashmap opcode; the Lean model does not cover hashmaps, so
+    these runs are judged by the audit of the implementation's own heap at every instruction boundary"""
+    names = {nm: op for op, (nm, ops) in tab.items()}
+    E = lambda nm, *vals: nvm.encode_instr(names[nm], [v & ((1 << 64) - 1) for v in vals], tab)
+    strings = [b"main", b"ab", b"cd", b"k", b"xyz"]
+    fresh = {"str": E("PUSH_STR", 1) + E("PUSH_STR", 2) + E("STR_CONCAT"), "str2": E("PUSH_I64", 12345) + E("CAST_STRING"),
+             "arr": E("PUSH_I64", 1) + E("PUSH_I64", 2) + E("ARR_LITERAL", 1, 2), "arrs": E("PUSH_STR", 1) + E("PUSH_STR", 2) + E("STR_CONCAT") + E("ARR_LITERAL", 5, 1),
+             "int": E("PUSH_I64", 42), "lit": E("PUSH_STR", 4)}
+    key = {"k1": E("PUSH_STR", 3), "k2": E("PUSH_I64", 9) + E("CAST_STRING"), "kint": E("PUSH_I64", 5)}
+    progs = []
+    for kt, vt in ((5, 1), (5, 5), (1, 1), (1, 5)):
+        for vk in fresh:
+            new = E("HM_NEW", kt, vt) + E("STORE_LOCAL", 0)
+            put = lambda kk, vv: E("LOAD_LOCAL", 0) + key[kk] + fresh[vv] + E("HM_SET") + E("POP")
+            fill = new + put("k1", vk) + put("k2", vk) + put("kint", "int")
+            uses = {"values-drop": E("LOAD_LOCAL", 0) + E("HM_VALUES") + E("POP"),
+                    "values-keep": E("LOAD_LOCAL", 0) + E("HM_VALUES") + E("STORE_LOCAL", 1) + E("PUSH_VOID") + E("STORE_LOCAL", 1),
+                    "keys-drop": E("LOAD_LOCAL", 0) + E("HM_KEYS") + E("POP"),
+                    "get": E("LOAD_LOCAL", 0) + key["k1"] + E("HM_GET") + E("POP"),
+                    "overwrite": put("k1", "str") + put("k1", "int"),
+                    "delete": E("LOAD_LOCAL", 0) + key["k2"] + E("HM_DELETE") + E("POP"),
+                    "has-len": E("LOAD_LOCAL", 0) + key["k1"] + E("HM_HAS") + E("POP") + E("LOAD_LOCAL", 0) + E("HM_LEN") + E("POP")}
+            for un, u in uses.items():
+                m = nvm.Mod()
+                m.strings = list(strings)
+                # use, then read the values once more through the map, then drop the map
+                body = fill + u + E("LOAD_LOCAL", 0) + key["k1"] + E("HM_GET") + E("PRINTLN") + E("PUSH_VOID") + E("STORE_LOCAL", 0) + E("PUSH_I64", 0) + E("RET")
+                m.code = body
+                m.functions = [[0, 0, 0, len(body), 2, 0]]
+                m.entry = 0
+                progs.append(("hashmap[%d,%d,%s].%s" % (kt, vt, vk, un), m.build(L)))
+    return progs
